@@ -145,4 +145,20 @@ structure LOk (K : Consts) (ts : TypeSystem) (c : Cas) (ci : Nat) (H : Heap) (L 
   /-- every indexed structure is collected -/
   members : ∀ nv ∈ c.views, ∀ e ∈ Index.all nv.2.idx, ∃ x : Int, (x, e.oid) ∈ L
 
+/-- a loaded view against the view that was written: same key, same sofa data; the converter is the one the reader
+    builds from the document text; the index holds exactly the members, at their new addresses -/
+def ViewRel (H : Heap) (na : Int → Nat) (nv nv' : String × View) : Prop :=
+  nv'.1 = nv.1 ∧ nv'.2.sofa.sofaID = nv.2.sofa.sofaID ∧ nv'.2.sofa.xid = nv.2.sofa.xid ∧
+  nv'.2.sofa.sofaNum = nv.2.sofa.sofaNum ∧ nv'.2.sofa.text = nv.2.sofa.text ∧ nv'.2.sofa.mime = nv.2.sofa.mime ∧
+  nv'.2.sofa.conv = convOfText (nv.2.sofa.text.map docText) ∧
+  ((Index.all nv'.2.idx).map (·.oid)).Perm ((pviewOf H nv).members.map na)
+
+/-- the loaded CAS has the written views, in the same order -/
+def ViewsRelL (H : Heap) (na : Int → Nat) : List (String × View) → List (String × View) → Prop
+  | [], [] => True
+  | nv :: r, nv' :: r' => ViewRel H na nv nv' ∧ ViewsRelL H na r r'
+  | _, _ => False
+
+def ViewsRel (H : Heap) (na : Int → Nat) (c c' : Cas) : Prop := ViewsRelL H na c.views c'.views
+
 end Cassis.Xmi
